@@ -21,7 +21,8 @@
       successful ApplyBlock operations of the history, in order. *)
 From Coq Require Import List ZArith NArith Bool.
 From Kardia Require Import Base.Int64 C19.Model C19.ProofsBasic C19.ProofsVerify C19.ProofsPool
-     C19.ProofsHistory C19.ProofsOnce C19.ProofsExamples C19.ProofsRefuted C19.ProofsMain Generated.C19Facts.
+     C19.ProofsHistory C19.ProofsOnce C19.ProofsExamples C19.ProofsRefuted C19.ProofsMain Generated.C19Facts
+     C19.ProofsExact C19.ProofsOnceSign C19.ProofsAgree C19.Open C19.ProofsNewExamples C19.ProofsCounter.
 Import ListNotations.
 Local Open Scope Z_scope.
 
@@ -169,3 +170,130 @@ Theorem C19_source_constants :
   default_proposal_evidence_count = default_proposal_pending_cap / max_evidence_bytes.
 Proof. exact source_constants_all. Qed.
 Print Assumptions C19_source_constants.
+
+(** EXACTNESS ("evidence is accepted exactly for real double-signing"): Pool.verify succeeds if AND ONLY IF
+    the evidence is a real double-signing carrying its block's time that has not expired. *)
+Theorem C19_verify_exact :
+  forall p c e, verify p c e = VOk <->
+    (sound (st_chain (p_state p)) c e /\ ~ expired (p_state p) (e_height e) (e_time e)).
+Proof. exact verify_exact. Qed.
+Print Assumptions C19_verify_exact.
+
+(** THE CONVERSE DIRECTION of the property at the pool: every real, timely double-signing that passes
+    ValidateBasic is accepted from a peer (and is pending afterwards unless already committed), and a block
+    whose evidence is well-formed, within the count limit, without repetition, and each piece of which is
+    [acceptable] (sound, not expired under either of the code's two rules, not committed) is accepted. *)
+Theorem C19_sound_accepted :
+  (forall p c e, validate_basic e = true -> sound (st_chain (p_state p)) c e ->
+     ~ expired (p_state p) (e_height e) (e_time e) ->
+     snd (peer_evidence p c e) = ROk /\
+     (is_committed p e = false -> is_pending (fst (peer_evidence p c e)) e = true)) /\
+  (forall p c mx es, forallb validate_basic es = true -> Z.of_nat (length es) <= mx -> NoDup (map e_hash es) ->
+     (forall e, In e es -> acceptable p c e) -> snd (block_evidence p c mx es) = ROk).
+Proof. exact (proj2 sound_accepted_all). Qed.
+Print Assumptions C19_sound_accepted.
+
+(** AGREEMENT: two correct nodes (pending entries sound and not committed) with the same latest state and
+    committed family give the same verdict on the evidence of every proposed block, whatever each of them
+    has pending -- given that keys identify evidence on the universe [U] (no Keccak collision) and sane
+    magnitudes (heights below 2^63, 0 <= MaxAgeNumBlocks, evidence not about the future). *)
+Theorem C19_block_validity_agreed :
+  forall (U : evidence -> Prop), (forall x y, U x -> U y -> ekey x = ekey y -> x = y) ->
+  forall cid c p q mx es,
+    pool_inv cid c p -> pool_inv cid c q -> p_state p = p_state q -> p_committed p = p_committed q ->
+    (forall x, In x (p_pending p) -> U x) -> (forall x, In x (p_pending q) -> U x) -> (forall e, In e es -> U e) ->
+    sane (p_state p) -> (forall e, In e es -> e_height e <= st_height (p_state p)) ->
+    (snd (block_evidence p c mx es) = ROk <-> snd (block_evidence q c mx es) = ROk).
+Proof. exact block_evidence_agreed. Qed.
+Print Assumptions C19_block_validity_agreed.
+
+(** ... and the bound on the magnitudes is needed: the statement without it (Open.v) fails for a negative
+    MaxAgeNumBlocks, where isExpired (uint64) and verify (int64) disagree *)
+Theorem C19_block_validity_agreed_literal_refuted : ~ block_validity_agreed_literal.
+Proof. exact literal_block_validity_agreed_refuted. Qed.
+Print Assumptions C19_block_validity_agreed_literal_refuted.
+
+(** NEVER TWICE, per double-signing: along any history (evidence reaching Update only through ApplyBlock,
+    consensus handing over only sound uncommitted evidence), two committed pieces of evidence that carry the
+    same two signatures have the same votes (incl. validator indices), powers and timestamp; if their hashes
+    agree (the hash is a function of the content) they are one evidence; and no key is committed twice. *)
+Theorem C19_once_per_double_sign :
+  forall (U : evidence -> Prop), (forall x y, U x -> U y -> ekey x = ekey y -> x = y) ->
+  forall cid n ops n' obs e1 e2,
+    Inv cid n -> ops_ok cid n ops -> no_raw_update ops -> pend_in U n -> ops_in U ops ->
+    run n ops = (n', obs) ->
+    In e1 (commit_evs n ops) -> In e2 (commit_evs n ops) ->
+    v_sig (e_a e1) = v_sig (e_a e2) -> v_sig (e_b e1) = v_sig (e_b e2) ->
+    (e_a e1 = e_a e2 /\ e_b e1 = e_b e2 /\ e_total e1 = e_total e2 /\ e_power e1 = e_power e2 /\
+     e_time e1 = e_time e2) /\
+    (e_hash e1 = e_hash e2 -> e1 = e2) /\
+    NoDup (map ekey (commit_evs n ops)).
+Proof. exact once_per_double_sign_faithful. Qed.
+Print Assumptions C19_once_per_double_sign.
+
+Theorem C19_new_hypotheses_satisfiable :
+  (pend_in U1 node0 /\ ops_in U1 history1 /\ no_raw_update history1 /\ commit_evs node0 history1 = [evOK]) /\
+  (pool_inv 1 chain2 holder2 /\ pool_inv 1 chain2 poolB /\ p_state holder2 = p_state poolB /\
+   p_committed holder2 = p_committed poolB /\ sane (p_state holder2) /\
+   (forall x, In x (p_pending holder2) -> U1 x) /\
+   snd (check_evidence holder2 chain2 [evOK]) = ROk /\ snd (check_evidence poolB chain2 [evOK]) = ROk).
+Proof. exact (conj once_sign_hypotheses agree_hypotheses). Qed.
+Print Assumptions C19_new_hypotheses_satisfiable.
+
+(** Update with a state that is not newer than the pool's (the sanity check) changes nothing; with a newer
+    one it succeeds and installs the state. *)
+Theorem C19_stale_update_rejected :
+  (forall p st evs, st_height st <= st_height (p_state p) -> update p st evs = (p, RPanic)) /\
+  (forall p st evs, st_height (p_state p) < st_height st ->
+     snd (update p st evs) = ROk /\ p_state (fst (update p st evs)) = st).
+Proof. exact (conj update_stale update_fresh_state). Qed.
+Print Assumptions C19_stale_update_rejected.
+
+(** The proposer's selection under a byte cap: PendingEvidence returns exactly the longest prefix of the
+    pending family (key order) whose protobuf size, as listEvidence accumulates it, does not exceed the cap
+    -- every non-empty prefix up to it fits and the next entry does not; when everything fits, everything
+    is returned. *)
+Theorem C19_pending_cap_prefix :
+  (forall p cap, cap <> -1 -> forallb validate_basic (p_pending p) = true -> p_size p <> 0 ->
+     let k := fit cap 0 (p_pending p) in
+     pending_evidence p cap = (firstn k (p_pending p), cum_size 0 (firstn k (p_pending p))) /\
+     (forall j, (1 <= j <= k)%nat -> cum_size 0 (firstn j (p_pending p)) <= cap) /\
+     ((k < length (p_pending p))%nat -> cap < cum_size 0 (firstn (S k) (p_pending p)))) /\
+  (forall p cap, cap <> -1 -> forallb validate_basic (p_pending p) = true -> p_size p <> 0 ->
+     (forall j, (1 <= j <= length (p_pending p))%nat -> cum_size 0 (firstn j (p_pending p)) <= cap) ->
+     fst (pending_evidence p cap) = p_pending p).
+Proof. exact (conj pending_evidence_cap pending_evidence_all_fit). Qed.
+Print Assumptions C19_pending_cap_prefix.
+
+(** THE COUNTER evidenceSize (PendingEvidence answers "nothing" when it is 0): starting from a fresh pool,
+    after any history of operations none of which is a failed NewPool (a node that cannot start), the keys of
+    the pending family are unique and the counter is the size of the family mod 2^32; below 2^32 entries it
+    is the size, it is 0 only for an empty family, PendingEvidence(-1) lists the whole family, and a
+    successful restart reloads the gossip list from the family. *)
+Theorem C19_size_counter_exact :
+  (forall st, counted (empty_pool st)) /\
+  (forall ops n, counted (n_pool n) -> (forall ob, In ob (snd (run n ops)) -> o_res ob <> RErr) ->
+     counted (n_pool (fst (run n ops)))) /\
+  (forall p, counted p -> Z.of_nat (length (p_pending p)) < 4294967296 ->
+     p_size p = Z.of_nat (length (p_pending p)) /\ (p_size p = 0 <-> p_pending p = [])) /\
+  (forall p, counted p -> Z.of_nat (length (p_pending p)) < 4294967296 ->
+     forallb validate_basic (p_pending p) = true -> fst (pending_evidence p (-1)) = p_pending p) /\
+  (forall p st p', restart p st = (p', ROk) ->
+     p_list p' = p_pending p' /\ p_size p' = wrapu32 (Z.of_nat (length (p_pending p')))).
+Proof. exact size_counter_all. Qed.
+Print Assumptions C19_size_counter_exact.
+
+(** SOURCE TIE: the model's guards and arithmetic ARE the expressions of the Go source (regenerated by
+    go2coq on every check): MaxEvidencePerBlock, validateBlock's count limit, Pool.verify's expiry test and
+    every check of VerifyDuplicateVote in the source's order, isExpired, Update's sanity check and pruning
+    condition, the next pruning height, listEvidence's byte cap, PendingEvidence's shortcut, CheckEvidence's
+    fast path and duplicate scan, ValidateBasic / NewDuplicateVoteEvidence's ordering, WeightedMedian /
+    MedianTime and tryAddVote's choice of timestamp (statement spelled out in SourceTie.v). *)
+From Kardia Require Import C19.SourceTie.
+Theorem C19_source_tie : C19_source_tie_statement.
+Proof. exact C19_source_tie_proof. Qed.
+Print Assumptions C19_source_tie.
+
+Theorem C19_source_atoms : C19_source_atoms_statement.
+Proof. exact C19_source_atoms_proof. Qed.
+Print Assumptions C19_source_atoms.
